@@ -37,7 +37,8 @@ thread_local! {
 /// (fd, identity of the open file description, cloexec)
 type Entry = (i32, usize, bool);
 
-const PATHS: [(&str, &str); 9] = [
+const PATHS: [(&str, &str); 10] = [
+    ("s", "/tmp/s"),
     ("in", "/dev/stdin"),
     ("out", "/dev/stdout"),
     ("err", "/dev/stderr"),
@@ -56,7 +57,8 @@ fn harness_byte(b: u8) -> bool {
 /// A file that received an error message (anything but harness bytes) has unknown content, and
 /// the offsets of the descriptions on it are unknown from then on (also after a truncation).
 fn tainted(name: &str, inode: &Rc<RefCell<Inode>>) -> bool {
-    if name == "err" {
+    // /dev/stderr receives messages; /tmp/s is shell text (the script the `.` built-in reads)
+    if name == "err" || name == "s" {
         return true;
     }
     // strong references: a freed inode's address must not be mistaken for a new file
@@ -308,6 +310,8 @@ fn command_text(kind: &str, redirs: &[RedirSpec], salt: u64) -> String {
         "empty" => "",
         "paren" => "( fds )",
         "cmdexec" => "command exec",
+        "dot" => ". /tmp/s",
+        "dotx" => ". /tmp/a/e",
         _ => "exec",
     };
     format!("{} {}\n{}mark\n", cmd, words.join(" "), bodies)
@@ -329,6 +333,7 @@ fn setup_system(env: &mut VEnv, state: &Rc<RefCell<SystemState>>, pre: &[(i32, c
     reg("/tmp/a", &[1, 2]);
     reg("/tmp/b", &[3, 4]);
     reg("/tmp/p", &[5, 6]);
+    reg("/tmp/s", b"fds\n");
     let dir = Rc::new(RefCell::new(Inode {
         body: FileBody::Directory { files: Default::default() },
         permissions: Mode::ALL_9,
@@ -462,6 +467,14 @@ fn run_case(case: &str) -> (String, String) {
                 verdict = format!("FAIL:descriptor-{fd}-left-open");
             }
         }
+        // no CLOEXEC descriptor below 10 is ever visible or left that was not there before
+        for (what, table) in [("left", Some(left)), ("visible", during.first().map(|d| &d.2))] {
+            for e in table.into_iter().flatten() {
+                if e.0 < 10 && e.2 && !base.contains(e) {
+                    verdict = format!("FAIL:cloexec-descriptor-{}-{what}", e.0);
+                }
+            }
+        }
         if let Some(d) = during.first() {
             for e in &d.2 {
                 let unchanged = base.contains(e);
@@ -497,8 +510,9 @@ fn run_guarded(case: &str) -> (String, String) {
     if o.starts_with("PANIC") { (o.clone(), format!("FAIL:{o}")) } else { out }
 }
 
-const KINDS: [&str; 10] =
-    ["special", "colon", "regular", "func", "brace", "notfound", "empty", "exec", "paren", "cmdexec"];
+const KINDS: [&str; 12] = [
+    "special", "colon", "regular", "func", "brace", "notfound", "empty", "exec", "paren", "cmdexec", "dot", "dotx",
+];
 const FILE_OPS: [&str; 5] = ["in", "out", "clob", "app", "rw"];
 const FILE_OPERANDS: [&str; 7] = ["a", "b", "m", "n", "d", "e", "E"];
 
@@ -698,6 +712,35 @@ fn exhaustion(thorough: bool) -> Vec<String> {
     v
 }
 
+/// the `.` built-in (open + `move_fd_internal`, run, close) under every limit, alone and with
+/// redirections whose saved copies occupy the first internal slots while it runs
+fn dot_cases() -> Vec<String> {
+    let pres = ["-", "3b", "3b,4r", "10b", "10c,11b", "0x", "3b,1x", "3r,4w,5b,6b,7b,8b,9b"];
+    let lists = ["", "1 out m; 2 dupout 1", "1 out a", "0 here -; 1 app b", "3 out m", "10 out m"];
+    let mut v = vec![];
+    for pre in pres {
+        let max_open = pre
+            .split(',')
+            .filter(|p| !p.ends_with('x') && *p != "-")
+            .filter_map(|p| p[..p.len() - 1].parse::<i32>().ok())
+            .max()
+            .unwrap_or(2)
+            .max(2);
+        for lim in (max_open + 1)..=15 {
+            for l in lists {
+                for kind in ["dot", "dotx"] {
+                    v.push(format!("0 {lim} {pre} | {kind} | {l}"));
+                }
+            }
+        }
+        for l in lists {
+            v.push(format!("0 - {pre} | dot | {l}"));
+            v.push(format!("0 - {pre} | dot | {l} | regular | 1 out m"));
+        }
+    }
+    v
+}
+
 fn main() {
     quiet_panics();
     let o = Opts::from_args();
@@ -713,6 +756,7 @@ fn main() {
     let mut all = systematic(o.thorough());
     all.extend(exhaustion(o.thorough()));
     all.extend(pairs(o.thorough()));
+    all.extend(dot_cases());
     for c in &all {
         if index % o.shard.1 == o.shard.0 {
             let (obs, oracle) = run_guarded(c);
